@@ -23,6 +23,7 @@ func c01Opts() ship1Opts {
 		noWaiting:  0.25,
 		roles:      []string{"server", "client", "server"},
 		lateFrames: 3,
+		warmup:     0.15,
 	}
 }
 
